@@ -9,7 +9,7 @@
  */
 #include "simfuzz.h"
 #include "sf_state.inc"
-static int ppre_pid[MAXO]; static int64_t ppre_prio[MAXO]; static uint64_t ppre_callseq[MAXO];     /* the last preempt call on each pool in the current event: who, how strong, when (ledger sequence) */
+static int ppre_pid[MAXO]; static int64_t ppre_prio[MAXO]; static uint64_t ppre_callseq[MAXO]; static uint64_t pvict_seq[MAXO][MAXP];     /* the last preempt call on each pool in the current event: who, how strong, when (ledger sequence) */
 #include "sf_calls.inc"
 #include "sf_script.inc"
 #include "sf_monitor.inc"
@@ -142,7 +142,7 @@ static void drive(int cap)
         if (empty || next_t > cmb_time()) mon_instant_end(empty, next_t);
         if (vr_nviol || empty) break;
         running_pid = pid_of(q->heap[1].item[1]);     /* the subject of every wake-up event is the process it resumes */
-        for (int pl = 0; pl < NPL; pl++) { ppre_pid[pl] = -1; ppre_callseq[pl] = 0; }
+        for (int pl = 0; pl < NPL; pl++) { ppre_pid[pl] = -1; ppre_callseq[pl] = 0; for (int k = 0; k < NP; k++) pvict_seq[pl][k] = 0; }
         /* C09: nothing addressed to an ended process may fire any more (a user's own event about it excepted), however soon after its end */
         if (running_pid >= 0 && procs[running_pid].ended && !procs[running_pid].start_pending) {
             bool users = false; for (int e = 0; e < npev; e++) if (PEV[e].pending && PEV[e].subj_pid == running_pid && PEV[e].h == q->heap[1].key) users = true;
